@@ -52,10 +52,10 @@ CLAIMS.update({
             "virtual time makes 'exactly at the deadline' observable: Timeout is enabled iff now >= deadline and every input/quiescence event requires that no task step is enabled, so an early, late or extended timeout, a missed drop after N consecutive timeouts or a counter that is not restarted is a rejection; whole and split replies at deadline-1/0/+1, foreign frames that must not move the deadline, outcome sequences x limits, partial frame across reconnect",
             "§7 C12", TRUST + "time advances only by scripted ticks"),
     "C13": ("e3-lifecycle", "model_checking",
-            "the life-cycle part of Client.tla (Start, BeginConnect, Attempt, FailNext, Connected, ConnFailed, WaitExpired, Post, Stopping) judges recorded runs of the production TcpChannelTask under virtual time: every command and fault at every life-cycle location plus random scripts; listener events, connection attempts and completions must be outputs of specification steps in that order; FailFast is an invariant; inputs require quiescence, so a request left queued while down or an attempt while disabled is a rejection",
-            "§7 C13", TRUST + "connections come from the verif-hooks connector (same select! against the command queue as the production connect())"),
+            "the life-cycle part of Client.tla (Start, BeginConnect, Attempt, FailNext, Connected, ConnFailed, WaitExpired, Post, Stopping) judges recorded runs of the production TcpChannelTask and (mode serial: PortState listener, synchronous open) of the production SerialChannelTask under virtual time: every command and fault at every life-cycle location, random scripts and behaviours simulated by TLC from the same specification; RtuServerTaskTrace.tla does the same for the RTU server task (open / session / re-open loop, shutdown and handle drop from every state); listener events, connection attempts and completions must be outputs of specification steps in that order; FailFast is an invariant; inputs require quiescence, so a request left queued while down or an attempt while disabled is a rejection",
+            "§7 C13", TRUST + "connections come from the verif-hooks connector (same select! against the command queue as the production connect()); serial ports come from the verif-hooks port opener (a scripted stream instead of tokio_serial::SerialStream)"),
     "C14": ("e3-lifecycle", "model_checking",
-            "retry arithmetic of Client.tla (retryCur doubling capped at max, reset on Connected, min after disconnect, wake = now + announced delay) validated on recorded runs over a (min,max) grid and failure/success/disconnect patterns with waits of delay-1 then 1 ms under virtual time: the announced delay and the instant of the next attempt must be exactly the specification's",
+            "retry arithmetic of Client.tla (retryCur doubling capped at max, reset on Connected, min after disconnect, wake = now + announced delay) validated on recorded runs over a (min,max) grid and failure/success/disconnect patterns with waits of delay-1 then 1 ms under virtual time: the announced delay and the instant of the next attempt must be exactly the specification's; the same for the RTU channel task (Client.tla mode serial) and the RTU server task (RtuServerTaskTrace.tla: port missing / present / unplugged patterns, instant of every open attempt)",
             "§7 C14", TRUST + "virtual milliseconds"),
     "C09": ("e4-servertask", "model_checking",
             "TlsAdmission.tla is the admission reference (minimum version, certificate validity per mode, single role extension); TlsAdmission_MC checks it against the statements of C09 over the whole configuration x peer grid; real handshakes on loopback between rodbus TLS servers (Rust and C ABI constructors, authority and self-signed modes, min 1.2 / 1.3, with and without authorization) and an independently configured rustls peer with pinned versions and fixture certificates are validated by TLC: outcome, negotiated version and the role seen by the authorization handler",
@@ -70,7 +70,7 @@ CLAIMS.update({
             "FfiTrace.tla holds the conversion tables (WriteResult -> exception byte, exception / error -> request_error value, param_error for argument errors), the wire encoding and decoding (ModbusPdu.tla) and the completion protocol; every scenario is executed through the extern \"C\" functions (C-ABI server with programmable write callbacks observed by a raw client; C-ABI client channel against a scripted peer) and the recorded return codes, wire bytes, callback invocations (which, payload, count) and on_destroy counts are validated by TLC",
             "§7 C18", TRUST + "rodbus-ffi linked as rlib; language wrappers above the C ABI not exercised; for calls that report an argument error the error value passed to the completion is not prescribed, only that it fires exactly once"),
     "C19": ("e5-ffi", "model_checking",
-            "per-type map semantics of the C-ABI database (add / update / delete / get, client reads, exception 02 on absent points) validated by TLC on random transaction / read sequences through rodbus_server_update_database and a raw client; atomicity: design-level all-interleavings model FfiDatabase_MC (lock per transaction holds, lock per operation is refuted as negative control) plus a stress run on the real code (writers setting a 125-register / 2000-coil block to one value, readers requiring uniform blocks)",
+            "per-type map semantics of the C-ABI database (add / update / delete / get, client reads, exception 02 on absent points) validated by TLC on random transaction / read sequences through rodbus_server_update_database and a raw client; atomicity: design-level all-interleavings model FfiDatabase_MC (lock per transaction holds, lock per operation is refuted as negative control) plus a stress run on the real code (writers setting a 125-register / 2000-coil block to one value, readers requiring uniform blocks; one run per point type, since each type has its own read path)",
             "§7 C19", TRUST + "atomicity on the real code is stress-sampled, as the property itself says"),
 })
 
